@@ -79,6 +79,7 @@ var (
 	flagNoCtl   = flag.Bool("nocontrols", false, "skip positive controls (development only)")
 	flagMutant  = flag.String("mutant", "", "run one mutant of the corpus (internal, thorough tier)")
 	flagListMut = flag.Bool("list-mutants", false, "list mutant ids for the property")
+	flagSeeded  = flag.String("seeded", "", "run one seeded change (directory under /verif/seeded; internal, thorough tier)")
 	flagVariant = flag.String("variant", "", "internal: build-configuration variant (386|race|tests)")
 	flagNoEv    = flag.Bool("noevidence", false, "do not write evidence (development / subprocess)")
 )
@@ -159,6 +160,9 @@ func run() int {
 
 	if *flagMutant != "" {
 		return runMutant(p, *flagMutant)
+	}
+	if *flagSeeded != "" {
+		return runSeeded(p, *flagSeeded)
 	}
 
 	var env []string
